@@ -113,7 +113,11 @@ type Sim struct {
 	inflight int64
 	closedAuthority string
 	stop    chan struct{}
+	jitter  int64 // > 0: every response is delayed by a pseudo-random 0..8 ms derived from this seed and the target
 }
+
+// SetJitter makes loads complete in many different orders (C08); 0 switches it off.
+func (s *Sim) SetJitter(seed int64) { atomic.StoreInt64(&s.jitter, seed) }
 
 // New starts nhosts TLS listeners and one plaintext canary.
 func New(nhosts int) *Sim {
@@ -352,6 +356,13 @@ func (s *Sim) handle(h *host, raw net.Conn) {
 	}
 	if fault != nil && fault.LatencyMs > 0 {
 		time.Sleep(time.Duration(fault.LatencyMs) * time.Millisecond)
+	}
+	if seed := atomic.LoadInt64(&s.jitter); seed > 0 {
+		h := uint64(seed)
+		for _, ch := range []byte(rec.Target) {
+			h = (h ^ uint64(ch)) * 1099511628211
+		}
+		time.Sleep(time.Duration(h%9) * time.Millisecond)
 	}
 	if fault == nil || fault.Kind == "" {
 		write(resp)
